@@ -93,6 +93,11 @@ CLAIMED = {
    text="Structural necessary conditions decided over every table entry and site: opcode tables agree across VM, compiler and decompiler; every construct the compiler accepts has an interpreter arm; no compile method succeeds without emitting or delegating; OpCall emission is gated on a resolvable name; names bound by the compiled handler equal those bound by the interpreter and every pre-declared name is bound; compiled registration happens only under useCompiler and injections / compile errors switch the whole module; constant-pool identity is type-aware; VM handlers never append onto operand storage; both handlers detect JSON bodies with the same operations.",
    note="Does not cover agreement of evaluation results over programs x inputs (operator/coercion/builtin semantics, async-with-jumps on the VM). Known findings: validation statements compile to nothing; the compiler emits calls the VM cannot resolve. Trusted: go/ast, go/types, go/ssa.",
    ref="DESIGN.md §3 C02"),
+ "C03": dict(
+   technique="static analysis: exhaustiveness of the optimiser's kill-set collector over the statement kinds computed from pkg/ast, per-arm invalidation rules over the syntax tree of OptimizeStatements, whitelist/guard-edge rule for loop-invariant hoisting, panic-site and literal-kind rules in the folder, reset-before-optimise path rule, level plumbing",
+   text="Structural conservativeness obligations of a flow-insensitive fact map, decided over every statement kind and arm: the modified-variable collector covers every assigning/nesting statement kind in value and pointer form; each nesting arm of OptimizeStatements invalidates every nested block, the if arm resets facts between and after its branches, the default arm invalidates, and only return statements start dead-code elimination; hoisting is behind a whitelist whose default refuses; integer folds are behind non-zero tests and literal kinds are never promoted; Reset discards optimiser facts and every Compile* entry resets before optimising; level 0 is the identity.",
+   note="Does not cover semantic preservation of individual rewrites over all values (equality of results across levels). Known residue: LICM may still move a plain assignment out of a loop that runs zero times. Trusted: go/ast, go/types, go/ssa.",
+   ref="DESIGN.md §3 C03"),
 }
 
 NA_REASONS = {}
